@@ -69,7 +69,7 @@ func runC13(c *Ctx) {
 					return false
 				}
 				call, ok := origin(lk.Index).(*ssa.Call)
-				return ok && callName(call) == "(net.IP).String" && call.Call.Args[0] == ip
+				return ok && callName(call) == "(net.IP).String" && (call.Call.Args[0] == ip || sameOrigin(call.Call.Args[0], ip))
 			}, false)
 		})
 		o.Site(ret.Pos(), "returns %s (not-in-use edge: %v) entry lockset %s", ip.Name(), free, la.fns[assign].entry)
@@ -359,7 +359,8 @@ func runC13(c *Ctx) {
 	for _, in := range findU(cclose, isRel) {
 		nRel++
 		o.Site(in.Pos(), "%s", in.String())
-		if _, isDefer := in.(*ssa.Defer); isDefer || !hasFact(in, func(ft fact) bool {
+		// (a release deferred after the already-closed guard is registered only on the open edge and runs once)
+		if !hasFact(in, func(ft fact) bool {
 			return boolFact(ft, func(v ssa.Value) bool { return isFieldLoad(v, "vnet.UDPConn", "closed") }, false)
 		}) {
 			o.Fail(in.Pos(), "the address is released on a path where the socket was not found open: a second Close evicts whichever socket holds the address now")
